@@ -38,6 +38,13 @@ def run(ctx):
     graphcheck.run_family(ctx, n, ASPECTS, CHECKS, SIGS, corpus=CORPUS, flavours=("future", "coro", "tornado"))
     # asynchronous holding nodes: balance at the final quiescent point, never negative, never rising after zero
     A.sweep(ctx, n // 2, A.ALL_KINDS, ["balance"], SIGS_B, opts={"small_alphabet": True, "p_nomd": 0.2})
+    # ... with start() / stop();start() on nodes of the running pipeline (a stopped worker or poller must not strand a reference)
+    A.sweep(ctx, n // 6, A.ALL_KINDS, ["balance"], SIGS_B, opts={"small_alphabet": True, "p_start": 0.18, "p_restart": 0.6})
+    from .c02 import saturation_races
+    for i, (nodes, script) in enumerate(saturation_races(ctx.thorough())):
+        case, obs = ac.run_adaptive(nodes, ctx.rng, len(script), opts={"script": script}, flavour=("future", "coro", "tornado")[i % 3])
+        ac.evaluate(ctx, case, obs, ["balance"], SIGS_B)
+        ctx.count("directed:map_async-races-and-restarts")
     for m in corr_modules():
         m.run(ctx, "C05", 30 if not ctx.thorough() else 1000)
     ctx.coverage["rule"] = ("as C01 with a fresh reference counter on ~80% of the metadata entries; counts are read after every operation "
